@@ -169,7 +169,7 @@ func (v *StructSchema) validate(ctx *p.SchemaCtx) {
 		// only run posttransforms on success
 		if !ctx.HasErrored() {
 			for _, fn := range v.postTransforms {
-				err := fn(ctx.Data, ctx)
+				err := fn(ctx.ValPtr, ctx)
 				if err != nil {
 					ctx.AddIssue(ctx.IssueFromUnknownError(err))
 					return
@@ -213,7 +213,7 @@ func (v *StructSchema) validate(ctx *p.SchemaCtx) {
 	// 3. tests for slice
 	for _, test := range v.tests {
 		ctx.Test = &test
-		test.Func(ctx.Data, ctx)
+		test.Func(ctx.ValPtr, ctx)
 		if ctx.Exit {
 			// catch
 			return
